@@ -28,7 +28,7 @@ Section Holds.
   Lemma spec_aget_is_get f cl k v : spec_answer O c f cl = AGet k v -> exists id, cl = CGet id.
   Proof.
     destruct cl as [id|key x]; [eauto|]. intros H. exfalso.
-    destruct f as [| |s]; try discriminate. cbn [spec_answer] in H.
+    destruct f as [| |s|e0]; try discriminate. cbn [spec_answer] in H.
     destruct (first_error O c [] (file_lines s)); discriminate.
   Qed.
 
@@ -55,27 +55,27 @@ Section Holds.
     exact (vt_pair_spec a b p q (H a Ha) (H b Hb) Hp Hq).
   Qed.
 
-  Lemma spec_run_answers : forall h f, Forall is_spec (answers (spec_run O c f h)).
+  Lemma spec_run_answers : forall h memo fs, Forall is_spec (answers (spec_run O c memo fs h)).
   Proof.
-    induction h as [|s h IH]; intros f; [constructor|].
-    destruct s as [v f'|cl]; cbn [spec_run]; [apply IH|].
-    cbn [answers flat_map fst snd app]. repeat constructor; try (exists f, cl; reflexivity). apply IH.
+    induction h as [|s h IH]; intros memo fs; [constructor|].
+    destruct s as [v f'|cl|cl flt]; cbn [spec_run]; [apply IH| |].
+    - cbn [answers flat_map fst snd app]. repeat constructor; try (eexists _, cl; reflexivity). apply IH.
+    - cbn [answers flat_map fst snd app]. repeat constructor; try (eexists _, cl; reflexivity). apply IH.
   Qed.
 
-  Lemma check_spec_run : forall h f, check O c f h (spec_run O c f h) = [].
+  Lemma check_spec_run : forall h memo fs, check O c memo fs h (spec_run O c memo fs h) = [].
   Proof.
-    induction h as [|s h IH]; intros f; [reflexivity|].
-    destruct s as [v f'|cl]; cbn [spec_run check]; [apply IH|].
-    rewrite !deqb_refl. cbn [app]. apply IH.
+    induction h as [|s h IH]; intros memo fs; [reflexivity|].
+    destruct s as [v f'|cl|cl flt]; cbn [spec_run check]; [apply IH| |].
+    - unfold call_clauses. rewrite !deqb_refl. cbn [app]. apply IH.
+    - rewrite !deqb_refl. cbn [app]. apply IH.
   Qed.
 End Holds.
 
 Lemma holds_model (cs : case) : valid cs -> holds cs (run_model cs) = [].
 Proof.
-  intros [(content_of & Hi & Hh) Hinj]. unfold holds, run_model.
-  rewrite (run_spec (oracle_of (tabs cs)) (ccfg cs) content_of (hist cs) (init cs) fresh).
-  - rewrite check_spec_run.
-    rewrite (vt_all_spec _ _ Hinj) by apply spec_run_answers. reflexivity.
-  - split; assumption.
-  - apply inv_fresh.
+  intros [(content_of & Hc) Hinj]. unfold holds, run_model.
+  rewrite (run_spec (oracle_of (tabs cs)) (ccfg cs) content_of (hist cs) (init cs) fresh Hc (inv_fresh _ _ _)).
+  cbn [fver fresh]. rewrite check_spec_run.
+  rewrite (vt_all_spec _ _ Hinj) by apply spec_run_answers. reflexivity.
 Qed.
